@@ -6,7 +6,7 @@ seed=$1; rules=$2
 d=$(mktemp -d /tmp/tryrule-XXXXXX)
 rsync -a --exclude .git /repo/ $d/
 if [ "$seed" != clean ]; then (cd $d && patch -p1 -s < /verif/seeded/$seed/patch.diff) || { echo "patch failed"; rm -rf $d; exit 2; }; fi
-/verif/bin/evcheck -rules "$rules" -repo $d -json 2>/tmp/tryrule.err | python3 -c "
+${EVBIN:-/verif/bin/evcheck} -rules "$rules" -repo $d -json 2>/tmp/tryrule.err | python3 -c "
 import json,sys
 d=json.load(sys.stdin)
 n=0
